@@ -129,6 +129,24 @@ type memoryDatabase struct {
 	lock     sync.RWMutex // lock of create metric store
 }
 
+// lastCreatedTime is the created time handed to the latest memory database.
+var lastCreatedTime atomic.Int64
+
+// nextCreatedTime returns a process-wide unique, increasing created time: it is the key of the memory database's
+// slot ranges in the shard level time series index, and the fast clock only ticks every few milliseconds.
+func nextCreatedTime() int64 {
+	for {
+		now := fasttime.UnixNano()
+		last := lastCreatedTime.Load()
+		if now <= last {
+			now = last + 1
+		}
+		if lastCreatedTime.CompareAndSwap(last, now) {
+			return now
+		}
+	}
+}
+
 // NewMemoryDatabase returns a new MemoryDatabase.
 func NewMemoryDatabase(cfg *MemoryDatabaseCfg) (MemoryDatabase, error) {
 	db := &memoryDatabase{
@@ -137,7 +155,7 @@ func NewMemoryDatabase(cfg *MemoryDatabaseCfg) (MemoryDatabase, error) {
 		familyTime:    cfg.FamilyTime,
 		name:          cfg.Name,
 		timeSeriesIDs: roaring.New(),
-		createdTime:   fasttime.UnixNano(),
+		createdTime:   nextCreatedTime(),
 		statistics:    metrics.NewMemDBStatistics(cfg.Name),
 	}
 	return db, nil
